@@ -10211,6 +10211,9 @@ def aten_unfold(self: TTensor, dimension: int, size: int, step: int) -> TTensor:
     self_rank = len(self.shape)
     if self_rank == 0:
         result = op.Unsqueeze(self, [0])
+        if size == 0:
+            # a 0-d tensor unfolds to shape (size,): nothing for size 0
+            result = op.Slice(result, [0], [0])
     else:
         # Handle negative dimension
         if dimension < 0:
